@@ -90,7 +90,15 @@ def main():
                             final_verification=dict(repo_head=head, patch_applies=True, repo_tests_with_patch=tests, demo_without_patch_exit=base,
                                                     demo_with_patch_exit=mut, still_a_valid_seed=valid, check_exit=c.returncode,
                                                     violation_lines=len(lines), first_violation=first, summary=summary, detected=detected))
-                json.dump(meta, open(os.path.join(dst, "meta.json"), "w"), indent=1)
+                mp = os.path.join(dst, "meta.json")
+                if os.path.exists(mp):
+                    try:
+                        prev = json.load(open(mp))
+                        meta["first_run"] = prev.get("first_run", meta["first_run"])   # a re-run never rewrites what the first run saw
+                        meta["repo_head_when_confirmed"] = prev.get("repo_head_when_confirmed", head)
+                    except Exception:
+                        pass
+                json.dump(meta, open(mp, "w"), indent=1)
     finally:
         sh("git -C /repo worktree remove --force %s" % WT)
         shutil.rmtree(WT, ignore_errors=True)
